@@ -22,13 +22,13 @@ import (
 // ---- C10: multi-file runs: per-file results are isolated and race-free -------------------------------
 
 type c10Case struct {
-	Files   map[string]string `json:"files"`   // path relative to the world root -> content
-	Repos   []string          `json:"repos"`   // repository roots relative to the world root
-	Cwd     string            `json:"cwd"`     // relative to the world root
-	Args    []string          `json:"args"`    // files to lint, in order, relative to the world root
-	Spell   []string          `json:"spell"`   // per argument: "rel", "dot", "abs"
-	Procs   int               `json:"procs"`   // GOMAXPROCS
-	Repeats int               `json:"repeats"` // how often the together-run is repeated
+	Files   map[string]string `json:"files"`            // path relative to the world root -> content
+	Repos   []string          `json:"repos"`            // repository roots relative to the world root
+	Cwd     string            `json:"cwd"`              // relative to the world root
+	Args    []string          `json:"args"`             // files to lint, in order, relative to the world root
+	Spell   []string          `json:"spell"`            // per argument: "rel", "dot", "abs"
+	Procs   int               `json:"procs"`            // GOMAXPROCS
+	Repeats int               `json:"repeats"`          // how often the together-run is repeated
 	Ignore  []string          `json:"ignore,omitempty"` // -ignore patterns of the invocation
 }
 
